@@ -44,11 +44,18 @@ SPEC = dict(
          "every search is run 5x without and 1x with DebugScore; 3 tfScore(k,b,L,f) samples per case (exact L, relative 2^-40).  Correspondence (default scorer): candidate features re-derived "
          "independently from the corpus, the weight of a candidate is passed as the binary64 product of its boosts (rational, +-Inf or NaN) and capped by the model; "
          "model computes all scores and both orders; scores compared rank by rank and identity by identity within 2^-30 (matches) / 2^-12 (files) + 2^-48 relative, "
-         "which fixes the order up to binary64 ties. non-trivial = >= 2 files and a file with >= 2 matches.",
+         "which fixes the order up to binary64 ties. non-trivial = >= 2 files and a file with >= 2 matches.  SECOND HARNESS (TestVerifC29K): K = scoreSymbolKind(language, filename, sym, ParseSymbolKind(kind)) on 28 language strings (both spellings of the 12 languages, "
+         "unknown, wrong case) x 53 kind strings (all ParseSymbolKind cases, mixed case, unknown) x filenames (_test.go variants) x symbols (first rune upper/lower/non-ASCII/invalid): "
+         "whole cross in the thorough tier, Go/go whole + 12% sample + random draws in the quick tier; A = match trees of random nested queries (or/and/not/boost/file:/sym:/regex/type:, "
+         "depth <= 3) with the known map of every matching document vs the atom(n) of the DebugScore run; T = BM25 line-mode searches: candidates (term, important, weight), "
+         "low priority, lengths vs the term-frequency map and file/line scores (relative 2^-40).",
     trusted_base=["correspondence harness harness/overlay/index/zz_verif_c29_test.go (corpus generator, feature re-derivation, Go oracle), oracle harness harness/overlay/search/zz_verif_c29_test.go",
                   "translator/scoreconsts (go/ast + go/constant) regenerating coq/Generated/ScoreConsts.v from the Go source on every run",
-                  "scoreSymbolKind is called as is to obtain the kind score of a symbol (its table is not modelled; only its maximum factor is generated)",
-                  "atom count per file is read from the debug string of the DebugScore run (visitMatchAtoms is not modelled)",
+                  "first harness: the kind score of a candidate is passed as scoreSymbolKind returned it and the atom count as the DebugScore run printed it; the second harness "
+                  "(harness/overlay/index/zz_verif_c29k_test.go) ties scoreSymbolKind/ParseSymbolKind to the generated tables, visitMatchAtoms to count_atoms and "
+                  "calculateTermFrequency/scoreFileBM25/scoreLineBM25 to tf_extract/bm25_file/bm25_line; its document walk copies the loop of indexData.Search (a wrong copy shows as a mismatch)",
+                  "features still taken from the implementation: unicode.IsUpper of a symbol's first rune, the low-priority classification of a file (read from the BM25 debug string), "
+                  "which section a candidate overlaps; kind strings are ASCII (strings.ToLower modelled on ASCII)",
                   "binary64 vs exact rationals: scores within 2^-30 (matches) / 2^-12 (files) + 2^-48 relative, order up to entries closer than that (a large boost absorbs "
                   "the tie-breaking terms: equal binary64 scores come back in an unspecified order); 0.9 is 9/10 in the model",
                   "NaN and -Inf boost products are given the effective weight 0 in the exact model (they never win a comparison in scoreLine/boostScore, exactly like 0); tied by correspondence cases",
@@ -59,50 +66,105 @@ SPEC = dict(
 )
 
 
+KIMPORTS = ["From Coq Require Import QArith.", "From ZV Require Import Lib.Base Model.Score Model.ScoreKind."]
+# second correspondence harness (TestVerifC29K): record kind -> (case type, mismatch function, what)
+KPARTS = {"kcase": ("c29kcase", "c29k_mismatches", "scoreSymbolKind/ParseSymbolKind vs the generated tables"),
+          "acase": ("c29acase", "c29a_mismatches", "visitMatchAtoms (atom count of scoreFile) on real match trees"),
+          "tcase": ("c29tcase", "c29t_mismatches", "calculateTermFrequency + scoreFileBM25/scoreLineBM25")}
+
+
+def par_eval(ctx, pid, imports, case_type, fn, terms, shard, workers=6, tag=""):
+    """vf.coq_eval_cases on shards, several coqc processes at a time"""
+    from concurrent.futures import ThreadPoolExecutor
+    chunks = [(s_, terms[s_:s_ + shard]) for s_ in range(0, len(terms), shard)]
+
+    def one(a_):
+        s_, ch = a_
+        return s_, vf.coq_eval_cases(ctx, pid, imports, case_type, fn, ch, shard=shard, tag="%s_p%d" % (tag, s_))
+    out = dict(ok=True, bad=[], evaluated=0, log="")
+    with ThreadPoolExecutor(max_workers=workers) as ex:
+        for s_, r_ in ex.map(one, chunks):
+            out["ok"] = out["ok"] and r_["ok"]
+            out["bad"] += [s_ + i for i in r_["bad"]]
+            out["evaluated"] += r_["evaluated"]
+            out["log"] += r_["log"]
+    return out
+
+
 def check(ctx, pre_broken=None):
-    """standard_check + a second, oracle-only harness at the Search API (package search)"""
+    """standard_check + a second, oracle-only harness at the Search API (package search) + the second correspondence
+    harness (kinds, atoms, term frequencies); the three Go harnesses run while the proofs are checked"""
+    import time
+    from concurrent.futures import ThreadPoolExecutor
     pid = ctx.pid
-    proofs = vf.coq_props(ctx, pid)
+    T = {}
+    t0 = time.time()
     broken, failures = list(pre_broken or []), []
-    aok, aout = vf.audit()
-    if not aok:
-        proofs["ok"] = False
-        proofs["discharged"] = 0
-        broken.append("audit: " + aout[-800:])
-    if ctx.tier == "thorough" and proofs["ok"]:
-        cok, cout = vf.coqchk(pid)
-        proofs["coqchk"] = cout[-1500:]
-        if not cok:
-            proofs["ok"] = False
-            broken.append("coqchk rejects Props/%s.vo: %s" % (pid, cout[-800:]))
-    if not proofs["ok"]:
-        broken.append("proof obligations of Props/%s.v do not check: %s" % (pid, (proofs.get("broken_files") or proofs.get("nonstd_axioms") or proofs["log"][-800:])))
     h, r = SPEC["harness"], SPEC["runner"]
     to = 900 if ctx.tier == "quick" else 3000
-    h1 = vf.go_harness(ctx, h["pkg_dir"], h["run"], h["files"], ctx.n(h["n_quick"], h["n_thorough"]), env=h.get("env"), timeout=to, out_name="out-index.jsonl")
+    with ThreadPoolExecutor(max_workers=3) as ex:
+        f1 = ex.submit(vf.go_harness, ctx, h["pkg_dir"], h["run"], h["files"], ctx.n(h["n_quick"], h["n_thorough"]), env=h.get("env"), timeout=to, out_name="out-index.jsonl")
+        f2 = ex.submit(vf.go_harness, ctx, "search", "TestVerifC29Search$", ["search/zz_verif_c29_test.go"], ctx.n(60, 1200), timeout=to, out_name="out-search.jsonl")
+        f3 = ex.submit(vf.go_harness, ctx, "index", "TestVerifC29K$", ["index/zz_verif_c29_test.go", "index/zz_verif_c29k_test.go"], ctx.n(40, 500), env=h.get("env"), timeout=to, out_name="out-kinds.jsonl")
+        proofs = vf.coq_props(ctx, pid)
+        T["proofs"] = round(time.time() - t0, 1)
+        aok, aout = vf.audit()
+        if not aok:
+            proofs["ok"] = False
+            proofs["discharged"] = 0
+            broken.append("audit: " + aout[-800:])
+        if ctx.tier == "thorough" and proofs["ok"]:
+            cok, cout = vf.coqchk(pid)
+            proofs["coqchk"] = cout[-1500:]
+            if not cok:
+                proofs["ok"] = False
+                broken.append("coqchk rejects Props/%s.vo: %s" % (pid, cout[-800:]))
+        if not proofs["ok"]:
+            broken.append("proof obligations of Props/%s.v do not check: %s" % (pid, (proofs.get("broken_files") or proofs.get("nonstd_axioms") or proofs["log"][-800:])))
+        h1, h2, h3 = f1.result(), f2.result(), f3.result()
+    T["harnesses+proofs"] = round(time.time() - t0, 1)
     if h1["rc"] != 0:
         broken.append("harness %s failed (rc=%d): %s" % (h["run"], h1["rc"], h1["log"][-1500:]))
-    h2 = vf.go_harness(ctx, "search", "TestVerifC29Search$", ["search/zz_verif_c29_test.go"], ctx.n(60, 800), timeout=to, out_name="out-search.jsonl")
     if h2["rc"] != 0:
         broken.append("harness TestVerifC29Search failed (rc=%d): %s" % (h2["rc"], h2["log"][-1500:]))
-    recs = h1["records"] + h2["records"]
+    if h3["rc"] != 0:
+        broken.append("harness TestVerifC29K failed (rc=%d): %s" % (h3["rc"], h3["log"][-1500:]))
+    recs = h1["records"] + h2["records"] + h3["records"]
     cases = [x for x in recs if x.get("kind") == "case"]
     for x in recs:
         if x.get("kind") == "oracle_fail":
             failures.append(dict(key=x.get("key", "?"), what=x.get("what", ""), replay=x.get("replay")))
     ev = dict(ok=True, bad=[], evaluated=0, log="")
-    if cases:
-        ev = vf.coq_eval_cases(ctx, pid, r["imports"], r["case_type"], r["mismatch_fn"], [c["coq"] for c in cases], shard=r.get("shard", 120))
-        if not ev["ok"]:
-            broken.append("model evaluation failed: " + ev["log"][-1500:])
-        for i in ev["bad"][:20]:
-            broken.append("correspondence %s: model and implementation disagree on case %s" % (r["mismatch_fn"], str(cases[i].get("sample"))[:1500]))
-    elif h1["rc"] == 0:
-        broken.append("harness produced no cases")
-    cov = dict(evaluations=len(cases), distinct_nontrivial=vf.distinct_nontrivial(cases), rule=SPEC["rule"],
-               samples=[c.get("sample") for c in cases[:3]], traces_validated_against_impl=ev["evaluated"],
-               correspondence_mismatches=len(ev["bad"]), oracle_failures=len(failures),
-               input_distribution=vf.histogram(cases, "class"), trusted_base=SPEC["trusted_base"])
+    kev = {}
+    if proofs["ok"]:
+        if cases:
+            ev = par_eval(ctx, pid, r["imports"], r["case_type"], r["mismatch_fn"], [c["coq"] for c in cases], shard=30)
+            if not ev["ok"]:
+                broken.append("model evaluation failed: " + ev["log"][-1500:])
+            for i in ev["bad"][:20]:
+                broken.append("correspondence %s: model and implementation disagree on case %s" % (r["mismatch_fn"], str(cases[i].get("sample"))[:1500]))
+        elif h1["rc"] == 0:
+            broken.append("harness produced no cases")
+        for kind, (ctype, fn, what) in KPARTS.items():
+            kc = [x for x in recs if x.get("kind") == kind]
+            if not kc:
+                if h3["rc"] == 0:
+                    broken.append("harness TestVerifC29K produced no %s records" % kind)
+                continue
+            e = par_eval(ctx, pid, KIMPORTS, ctype, fn, [c["coq"] for c in kc], shard=400 if kind == "kcase" else 150, tag="_" + kind)
+            kev[kind] = dict(what=what, cases=len(kc), distinct_nontrivial=vf.distinct_nontrivial(kc), evaluated=e["evaluated"],
+                             mismatches=len(e["bad"]), input_distribution=vf.histogram(kc, "class"))
+            if not e["ok"]:
+                broken.append("model evaluation (%s) failed: %s" % (kind, e["log"][-1500:]))
+            for i in e["bad"][:10]:
+                broken.append("correspondence %s (%s): model and implementation disagree on %s" % (fn, what, vf.json.dumps(kc[i].get("sample"), default=str)[:1200]))
+    T["model-eval"] = round(time.time() - t0, 1)
+    kn = sum(v["cases"] for v in kev.values())
+    cov = dict(phase_seconds=T, evaluations=len(cases) + kn,
+               distinct_nontrivial=vf.distinct_nontrivial(cases) + sum(v["distinct_nontrivial"] for v in kev.values()), rule=SPEC["rule"],
+               samples=[c.get("sample") for c in cases[:3]], traces_validated_against_impl=ev["evaluated"] + sum(v["evaluated"] for v in kev.values()),
+               correspondence_mismatches=len(ev["bad"]) + sum(v["mismatches"] for v in kev.values()), oracle_failures=len(failures),
+               input_distribution=vf.histogram(cases, "class"), second_harness=kev, trusted_base=SPEC["trusted_base"])
     if proofs.get("coqchk"):
         cov["coqchk"] = proofs["coqchk"]
     for x in recs:
